@@ -82,9 +82,17 @@ RACE_BASELINE_FUNCS = {
 }
 
 
+# further single pairs of the same kind (one side is one of the functions above, the other
+# reads the record's fields while saving it).
+RACE_BASELINE_PAIRS = {
+    tuple(sorted(("state.(*State).AddPublicRouterInfo", "storage.(*MemStorage).SaveRouter"))),
+    tuple(sorted(("state.(*State).MarkRouterOffline", "storage.(*MemStorage).SaveRouter"))),
+}
+
+
 class _Baseline:
     def __contains__(self, pair):
-        return all(f in RACE_BASELINE_FUNCS for f in pair)
+        return all(f in RACE_BASELINE_FUNCS for f in pair) or tuple(sorted(pair)) in RACE_BASELINE_PAIRS
 
 
 RACE_BASELINE = _Baseline()
